@@ -1,6 +1,10 @@
 import WacModel.Spec.Graph
 import WacProofs.Lemmas.GraphErrors
 import WacProofs.Lemmas.Graph
+import WacProofs.Lemmas.GraphInvPkg
+import WacProofs.Lemmas.GraphInvUnexport
+import WacProofs.Lemmas.GraphInvUnsetArg
+import WacProofs.Lemmas.GraphInvDefine2
 /-
   C06 — the graph API stays consistent over every operation history.
 
@@ -138,6 +142,52 @@ theorem double_removal_repaired :
     (run ctxW {} histDoubleRemove).2.getLast? = some (.ok .unit) ∧
     (run ctxW {} histDoubleRemove).1.nodeIds = [] ∧ Inv ctxW (run ctxW {} histDoubleRemove).1 := by
   decide
+
+/-! ### the invariant is preserved by every call (induction step over histories)
+
+  Full statement (DESIGN §7):
+    `inv_step : Inv ctx g → step ctx g op = (g', out) → out.isPanic = false → Inv ctx g'` for every `op`.
+  Proved below for every operation except `remove_node` and `unregister_package` (the two
+  cascading removals): `inv_step_partial`.  For these two the invariant is monitored on every
+  run on the implementation's reported state (driver, SPEC) and checked by `decide` on the
+  concrete histories of the `*_repaired` theorems. -/
+
+/-- operations covered by `inv_step_partial` -/
+def nonCascading : Op → Bool
+  | .removeNode _ | .unregister _ => false
+  | _ => true
+
+theorem inv_step_partial (ctx : Ctx) (g g' : Graph) (op : Op) (out : Outcome)
+    (h : Inv ctx g) (hop : nonCascading op = true) (hs : step ctx g op = (g', out)) : Inv ctx g' := by
+  unfold step stepWith at hs
+  cases op with
+  | register d => exact inv_registerPackage h hs
+  | unregister id => simp [nonCascading] at hop
+  | defineType name ty => exact inv_defineType h hs
+  | importItem name kind => exact inv_importItem h hs
+  | instantiate id => exact inv_instantiate h hs
+  | alias inst ename => exact inv_aliasInstanceExport h hs
+  | setArg inst name arg => exact inv_setArg h hs
+  | unsetArg inst name arg => exact inv_unsetArg h hs
+  | exportNode n name => exact inv_exportNode h hs
+  | unexport n => exact inv_unexport h hs
+  | setName n name =>
+    cases ho : out with
+    | panic s =>
+      -- a panicking `set_node_name` leaves the state untouched in the model
+      simp only at hs
+      unfold setNodeName at hs
+      split at hs
+      · simp only [Prod.mk.injEq] at hs; rw [← hs.1]; exact h
+      · simp only [Prod.mk.injEq] at hs; rw [ho] at hs; cases hs.2
+    | ok v => exact inv_setNodeName h hs (by rw [ho]; rfl)
+    | err e => exact inv_setNodeName h hs (by rw [ho]; rfl)
+  | removeNode n => simp [nonCascading] at hop
+
+-- non-vacuity: a history that uses every covered operation keeps `Inv`
+example : Inv ctxW (run ctxW {} [.register pkgW, .instantiate ⟨0, 0⟩, .instantiate ⟨0, 0⟩, .alias 0 ['a'],
+    .setArg 1 ['a'] 2, .exportNode 2 ['x'], .setName 2 ['n'], .importItem ['i'] 0, .defineType ['t'] 1,
+    .defineType ['u'] 0, .unsetArg 1 ['a'] 2, .unexport 2]).1 := by decide
 
 /-! ### stale package identifiers -/
 
